@@ -891,15 +891,31 @@ fn write_rl(rng: &mut Rng, out: &mut Out, reps: usize) {
         // some runs are given to the builder in two adjacent pieces (it must merge them: runs are maximal)
         let mut b = RLBuilder::new();
         let mut split = false;
+        let mut cur = 0u64;
         for (s, l) in runs.iter() {
+            // sometimes the gap in front of a run is declared first (set_len up to the start of the run), and calls
+            // documented to have no effect sit between the two pieces of a run
+            if *s > cur && rng.chance(1, 5) {
+                if rng.chance(1, 2) && *s > cur + 1 {
+                    b.set_len((cur + 1 + rng.below(*s - cur - 1)) as usize);
+                }
+                b.set_len(*s as usize);
+                out.stat("w.TRL.gap_declared_with_set_len");
+            }
             if *l >= 2 && rng.chance(1, 6) {
                 let a = rng.range(1, l - 1);
                 b.try_set(*s as usize, a as usize).unwrap();
+                match rng.below(3) {
+                    0 => b.set_len((*s + a) as usize),
+                    1 => { let _ = b.try_set((*s + a + 1 + rng.below(9)) as usize, 0); }
+                    _ => {}
+                }
                 b.try_set((*s + a) as usize, (*l - a) as usize).unwrap();
                 split = true;
             } else {
                 b.try_set(*s as usize, *l as usize).unwrap();
             }
+            cur = *s + *l;
         }
         b.set_len(len as usize);
         let rv = RLVector::from(b);
